@@ -509,16 +509,17 @@ def main(argv=None):
     deadline = time.time() + (a.budget or (60 if quick else 1200))
     n = 6000 if quick else 400000
     with common.Pool() as pool:
-        cases = core_cases(a.seed) + [gen_case(a.seed * 1_000_000 + i) for i in range(n)]
-        for c in cases[:3]:
-            c["want_sample"] = True
+        import itertools
+
+        ncore = len(core_cases(a.seed))
+        cases = common.with_samples(itertools.chain(core_cases(a.seed), (gen_case(a.seed * 1_000_000 + i) for i in range(n))), 3)
         done = 0
         for case, res in pool.map(run_case, cases, deadline=deadline, chunksize=16):
             done += 1
             ev.add_run(res)
             for v in res["violations"]:
                 rep.add(case, v)
-        ev.extra["planned"] = len(cases)
+        ev.extra["planned"] = ncore + n
         ev.assumptions = [
             "admission is observed at the wire (220/421/230/331/530 as written by the server, close of the server-side control transport), ordered by event-loop step; ties are resolved in favour of the implementation",
             "the conservation probe runs on a quiescent server 30+ virtual seconds after the last session ended",
